@@ -9,14 +9,14 @@ func (cw *CodeWriter) flushPending() {
 		if ch == '\t' {
 			cw.writeIndent()
 		} else {
-			cw.Builder.WriteRune(ch)
+			cw.writeRaw(string(ch))
 		}
 	}
 	cw.clearPending()
 }
 
 func (cw *CodeWriter) writeNewline() {
-	cw.Builder.WriteRune('\n')
+	cw.writeRaw("\n")
 }
 
 func (cw *CodeWriter) writeIndent() {
@@ -25,7 +25,7 @@ func (cw *CodeWriter) writeIndent() {
 		indent = "  " // default: 2 spaces
 	}
 	for i := 0; i < cw.IndentLevel; i++ {
-		cw.Builder.WriteString(indent)
+		cw.writeRaw(indent)
 	}
 }
 
